@@ -739,6 +739,10 @@ impl<'a> Gen<'a> {
     fn node(&mut self) -> i64 {
         if self.sh.nn == 0 || self.rng.chance(1, 12) { self.sh.nn + self.rng.below(2) as i64 } else { self.rng.below(self.sh.nn as u64) as i64 }
     }
+    /// an existing node id (edges are only created between ids that have been handed out)
+    fn node_existing(&mut self) -> i64 {
+        if self.sh.nn == 0 { 0 } else { self.rng.below(self.sh.nn as u64) as i64 }
+    }
     fn edge(&mut self) -> i64 {
         if self.sh.ne == 0 || self.rng.chance(1, 12) { self.sh.ne + self.rng.below(2) as i64 } else { self.rng.below(self.sh.ne as u64) as i64 }
     }
@@ -825,16 +829,16 @@ impl<'a> Gen<'a> {
                 }
                 22..=29 => Op::DeleteNode(s, self.sel(), self.node(), self.rng.chance(1, 3)),
                 30..=37 => {
-                    if self.sh.ne >= MAXEDGES {
+                    if self.sh.ne >= MAXEDGES || self.sh.nn == 0 {
                         continue;
                     }
-                    Op::CreateEdge(s, self.node(), self.node(), self.ty())
+                    Op::CreateEdge(s, self.node_existing(), self.node_existing(), self.ty())
                 }
                 38..=43 => {
-                    if self.sh.ne >= MAXEDGES {
+                    if self.sh.ne >= MAXEDGES || self.sh.nn == 0 {
                         continue;
                     }
-                    Op::CreateEdgeQ(s, self.sel(), self.sel(), self.node(), self.node(), self.ty())
+                    Op::CreateEdgeQ(s, self.sel(), self.sel(), self.node_existing(), self.node_existing(), self.ty())
                 }
                 44..=46 => Op::DeleteEdge(self.edge()),
                 47..=58 => Op::SetProp(s, self.sel(), self.node(), self.key(), self.value()),
@@ -843,9 +847,14 @@ impl<'a> Gen<'a> {
                 70..=74 => Op::RemoveLabel(s, self.sel(), self.node(), self.label()),
                 75..=84 => Op::InsertTriple(s, self.triple()),
                 85..=90 => Op::DeleteTriple(s, self.triple()),
-                91..=92 => Op::DbDeleteNode(self.node()),
-                93..=94 => Op::DbSetProp(self.node(), self.key(), self.value()),
-                95..=96 => Op::DbRemoveProp(self.node(), self.key()),
+                91..=92 => Op::DbDeleteNode(self.node_existing()),
+                93..=94 => {
+                    if self.sh.nn == 0 {
+                        continue;
+                    }
+                    Op::DbSetProp(self.node_existing(), self.key(), self.value())
+                }
+                95..=96 => Op::DbRemoveProp(self.node_existing(), self.key()),
                 97..=98 => Op::DbAddLabel(self.node(), self.label()),
                 _ => Op::DbRemoveLabel(self.node(), self.label()),
             };
